@@ -27,6 +27,12 @@ CHECKS = {
         text="After every scheduling call of the sweep, successful or failing, every procedure alive before the call (source, corpus sub-procedures) is fingerprinted again; any change is decided behaviourally by z3 (old vs new encoding, all inputs within bounds); cursors created before the call must still resolve to the identical node objects; printed text must be byte-identical.",
         note="Behavioural clause is solver-decided; print/cursor identity are concrete observations. Stale analysis caches and cross-process effects are outside.",
         design="5/C07"),
+    "C12": dict(
+        category=TV, engine="exprtv",
+        technique="lock-step walk of original and simplified LoopIR; per pair of corresponding control expressions a z3 query PC /\\ old != new over unbounded integers (LIA + div/mod by literals); removed branches/loops need PC => (not) cond / hi <= lo; models replayed by a solver-free evaluator",
+        text="For an expression corpus (hand-written quasi-affine shapes incl. quotient-remainder, nested div/mod, negative numerators, shadowed names, config reads + grammar-generated shapes) placed in every context kind (index, guard, loop bound, alloc size, window bound, call argument, config write) under loops/guards/assertions, and for all corpus procedures and derived ones: simplify is run for real and every rewritten expression is proved equal to the original for ALL integer valuations admitted by the context (unbounded).",
+        note="Unbounded in the integers, bounded in expression shapes (stated family). Path conditions are the checker's own. Unalignable programs are counted as such, never as passes.",
+        design="5/C12"),
     "C17": dict(
         category=TV, engine="loopsym",
         technique="print -> real @proc parse -> alpha-equivalence walk + z3 equivalence query (loopsym) between the procedure and its re-parsed text",
@@ -46,7 +52,7 @@ NOT_APPLICABLE = [
     ("C18", "Quantifies over CPython hash seeds and process histories; encoding it needs a model of the interpreter's dict/set implementation, not of Exo (DESIGN 6)."),
 ]
 
-PENDING = {p: 'check under construction in this round (design in DESIGN.md section 5); not claimed until its command exists' for p in ['C02','C03','C05','C06','C08','C09','C10','C11','C12','C13','C14','C16']}
+PENDING = {p: 'check under construction in this round (design in DESIGN.md section 5); not claimed until its command exists' for p in ['C02','C03','C05','C06','C08','C09','C10','C11','C13','C14','C16']}
 
 
 def main():
